@@ -355,6 +355,8 @@ func c19Failures() []c19Fail {
 	add(arr, "p / 2", "p + 1", "p[99]", "p[3:2]", "!p", "p(1)", "if p 1", "aton(p)", "p < p", "(p + [0]) - 1", "p[0][0]")
 	add("id", "p + 1", "p[0]", "#p", "p(1, 2)", "if p 1", "aton(p)", "p < 1")
 	add("\"two\nlines\"", "p / 2", "p[9]", "aton(p)")
+	add("\"15% off\"", "p / 2", "p[9]", "aton(p)", "p + 1")
+	add("[\"%d\", \"%s%v\"]", "p / 2", "p[9]", "p + 1")
 	add("1.5", "p % 2", "p & 1", "p << 1", "[1][p]", "~p")
 	add("true", "p + 1", "-p", "#p", "p[0]", "p < false")
 	return fs
@@ -407,6 +409,16 @@ func c19Sites() []c19Site {
 		}},
 		{"zip-second", func(f c19Fail) []string {
 			return withPre("gen = (p, q) -> {\n  yield 1\n  "+f.Src+"\n  yield 2\n}", "for i, j <- fromto(0, 5), gen("+f.P+", 2) i")
+		}},
+		{"recycled-toplevel-generator-fails-before-first-yield", func(f c19Fail) []string {
+			// the inner loop's context is recycled from the second outer iteration on; there the generator fails at once
+			return withPre("pv = "+f.P, "gen = (p, q) -> {\n  if q == 1 {\n    "+f.Src+"\n  }\n  yield 1\n  yield 2\n}", "for a <- fromto(0, 3) for b <- gen(pv, a) t = b")
+		}},
+		{"recycled-generator-in-function-fails-before-first-yield", func(f c19Fail) []string {
+			return withPre("gen = (p, q) -> {\n  if q == 2 {\n    "+f.Src+"\n  }\n  yield 1\n}", "fa = (z) -> {\n  for a <- fromto(0, 3) for b <- gen(z, a) t = b\n}", "fa("+f.P+")")
+		}},
+		{"second-loop-same-statement-fails-at-once", func(f c19Fail) []string {
+			return withPre("pv = "+f.P, "gen = (p, q) -> {\n  if q == 1 {\n    "+f.Src+"\n  }\n  yield 1\n}", "{\n  for b <- gen(pv, 0) t = b\n  for b <- gen(pv, 1) t = b\n}")
 		}},
 		{"body-of-loop-over-generator", func(f c19Fail) []string {
 			return withPre("lit = () -> {\n  yield 1\n  yield 2\n}", "fa = (p, q) -> for i <- lit() if i == 2 {\n  "+f.Src+"\n}", "fa("+f.P+", 4)")
